@@ -1,6 +1,7 @@
 package main
 
 import (
+	"go/token"
 	"fmt"
 	"strconv"
 	"go/types"
@@ -249,6 +250,9 @@ func rootOf(x ssa.Value, depth int) (kind string, g *ssa.Global) {
 		// loaded pointer: the cell it points to is not the cell loaded from
 		k, gg := rootOf(t.X, depth+1)
 		if k == "local" {
+			if loadedFromPrivateCell(t, depth) {
+				return "local", nil
+			}
 			return "loaded-local", nil
 		}
 		if k == "global" {
@@ -271,6 +275,84 @@ func rootOf(x ssa.Value, depth int) (kind string, g *ssa.Global) {
 		return kind, nil
 	}
 	return "unknown", nil
+}
+
+// loadedFromPrivateCell: ld loads a slice, map or pointer from a field of (or from) an object this function
+// allocated and has not handed to anyone - its only uses are field addresses, loads, stores *to* it and returns -
+// and every store into that same cell within the function puts there something the function made itself (make,
+// append, new, a composite literal). What is loaded is then an object of this function's own, as if it had been
+// kept in a local variable:  info := &T{xs: make(...)}; info.xs[i] = v  is the same as  xs := make(...); xs[i] = v.
+func loadedFromPrivateCell(ld *ssa.UnOp, depth int) bool {
+	if ld.Op != token.MUL {
+		return false
+	}
+	var alloc *ssa.Alloc
+	field := -1
+	switch a := ld.X.(type) {
+	case *ssa.Alloc:
+		alloc = a
+	case *ssa.FieldAddr:
+		al, ok := a.X.(*ssa.Alloc)
+		if !ok {
+			return false
+		}
+		alloc, field = al, a.Field
+	default:
+		return false
+	}
+	sameCell := func(x ssa.Value) bool {
+		if field < 0 {
+			return x == ssa.Value(alloc)
+		}
+		fa, ok := x.(*ssa.FieldAddr)
+		return ok && fa.X == ssa.Value(alloc) && fa.Field == field
+	}
+	refs := alloc.Referrers()
+	if refs == nil {
+		return false
+	}
+	stores := 0
+	for _, r := range *refs {
+		switch u := r.(type) {
+		case *ssa.FieldAddr:
+			// every use of a field address: loads, and stores through it (not of it)
+			if fr := u.Referrers(); fr != nil {
+				for _, r2 := range *fr {
+					switch w := r2.(type) {
+					case *ssa.UnOp, *ssa.DebugRef:
+					case *ssa.Store:
+						if w.Val == ssa.Value(u) {
+							return false // the field's address is stored somewhere
+						}
+						if sameCell(u) {
+							if k, _ := rootOf(w.Val, depth+1); k != "local" {
+								return false
+							}
+							stores++
+						}
+					case *ssa.IndexAddr, *ssa.FieldAddr:
+						// an embedded array or struct: writes through these are writes into the object itself
+					default:
+						return false
+					}
+				}
+			}
+		case *ssa.Store:
+			if u.Val == ssa.Value(alloc) {
+				return false // the object's address is stored somewhere
+			}
+			if field < 0 && u.Addr == ssa.Value(alloc) {
+				if k, _ := rootOf(u.Val, depth+1); k != "local" {
+					return false
+				}
+				stores++
+			}
+		case *ssa.UnOp, *ssa.Return, *ssa.DebugRef:
+		default:
+			return false // passed to a call, captured by a closure, converted, ...
+		}
+	}
+	return stores > 0
 }
 
 func (v *Verifier) mutableAfterInit() *mutInfo {
